@@ -303,11 +303,11 @@ Definition step_st (cf : cfg) (s : st) (e : ev) : st := fst (step cf s e).
                 success | 5 ok, and the failure classifier panics on it | anything else: panic
      min_calls < 0 in the configuration = minimum_number_of_calls not set (defaults to the
      window size)
-     first field = time_based + 2*unit_us: with unit_us = 1 every duration and advance of the
-     script is in microseconds instead of milliseconds; the model is unit-agnostic and ignores
-     the bit (only the driver needs it)
+     first field = time_based + 2*unit_us + 4*unit_ns: with unit_us (unit_ns) = 1 every
+     duration and advance of the script is in microseconds (nanoseconds) instead of milliseconds;
+     the model is unit-agnostic and ignores the bits (only the driver needs them)
    trace = per event [r; started; state; state_sync; metrics.state; total; failures; successes;
-                      slow; in-flight; wake mask]   (states: 0 Closed, 1 Open, 2 HalfOpen) *)
+                      slow; in-flight; wake mask of callers 0..119]   (states: 0 Closed, 1 Open, 2 HalfOpen) *)
 Definition outcome_of (z : Z) : outcome :=
   if z =? 0 then OOk false else if z =? 1 then OOk true else
   if z =? 2 then OErr true else if z =? 3 then OErr false else
@@ -315,16 +315,25 @@ Definition outcome_of (z : Z) : outcome :=
 
 Definition ev_of (n : Z) (t : Z * Z * Z) : option ev :=
   let '(op, a, b) := t in
-  let i := Z.to_nat a in
+  (* Z.to_nat only under the caller test: an Advance of 10^6 ns must not build a unary number *)
   let caller := (0 <=? a) && (a <? n) in
-  if op =? 1 then (if caller then Some (Poll i) else None) else
-  if op =? 2 then (if caller then Some (Drop i) else None) else
+  if op =? 1 then (if caller then Some (Poll (Z.to_nat a)) else None) else
+  if op =? 2 then (if caller then Some (Drop (Z.to_nat a)) else None) else
   if op =? 3 then Some (Advance a) else
-  if op =? 4 then (if caller then Some (Complete i (outcome_of b)) else None) else
+  if op =? 4 then (if caller then Some (Complete (Z.to_nat a) (outcome_of b)) else None) else
   if op =? 5 then Some ForceOpen else
   if op =? 6 then Some ForceClosed else
   if op =? 7 then Some Reset else
-  if op =? 8 then (if caller then Some (Advance 0) else None) else None.
+  if op =? 8 then (if caller then Some (Advance 0) else None) else
+  (* 15 / 16 / 17: force_open / force_closed / reset called on the SERVICE's own handle (the
+     fallback service when a fallback is configured) instead of the plain clone: same circuit *)
+  if op =? 15 then Some ForceOpen else
+  if op =? 16 then Some ForceClosed else
+  if op =? 17 then Some Reset else
+  (* 25 / 26: HealthTriggerable::trigger_unhealthy / trigger_healthy on the service's handle: a
+     spawned task does force_open / force_closed; it has run by the time the event is observed *)
+  if op =? 25 then Some ForceOpen else
+  if op =? 26 then Some ForceClosed else None.
   (* op 8 = the call future of caller a is created (call()) without being polled: nothing
      happens in call() for this layer, so the model treats it as a no-op *)
 
@@ -346,7 +355,7 @@ Fixpoint run_evs (cf : cfg) (n : nat) (s : st) (evs : list ev) : list Z :=
     let '(s', o) := step cf s e in
     let '(ms, t, f, su, sl) := metrics cf (circ s') in
     [r o; b2z (started o); code (state (circ s')); code (state_atomic (circ s')); code ms;
-     t; f; su; sl; inflight s'; wake_mask s' n] ++ run_evs cf n s' rest
+     t; f; su; sl; inflight s'; wake_mask s' (Nat.min n 120)] ++ run_evs cf n s' rest
   end.
 
 Definition cfg_of (sc : list Z) : cfg :=
